@@ -178,7 +178,7 @@ func init() {
 		}
 		racePassFinish(c, int64(rounds), "8 goroutines x 48 API items per round (build, decode, lookups, integrity, fingerprint, typed attributes, URIs, type codec, reuse) on objects of their own, in a child process under the race detector; results compared with the single-goroutine results")
 	}
-	for _, id := range []string{"C01", "C03", "C04", "C06", "C17"} {
+	for _, id := range []string{"C01", "C02", "C03", "C04", "C05", "C06", "C07", "C08", "C09", "C17", "C19"} {
 		registry[id] = propImpl{Run: run, Replay: racePassReplay(run)}
 	}
 }
